@@ -33,7 +33,8 @@ type Outcome struct {
 
 // LocTr holds the spec's translations for one locale.
 type LocTr struct {
-	Loc   string   `json:"loc"`
+	Loc   string   `json:"loc"`   // rule id (= the locale whose standard rule it is)
+	Names []string `json:"names"` // locales a catalogue with this header is loaded for
 	Forms string   `json:"forms"` // Plural-Forms header value
 	Idt   []string `json:"idt"`
 	Rev   []string `json:"rev"`
@@ -74,7 +75,7 @@ func (c *POCase) isPlural() bool { return len(c.Parts) == 1 && c.Parts[0].K == "
 
 // Run is the entry point for C11.
 func Run(ctx *core.Ctx) {
-	ctx.Rule = "cases: messages = bodies of <= 3 (thorough 4) parts from PoolC11 of SoyPO.tla ($a.y $b.y $y $y_1 $n+1 ($n+1)*2 $n+1*2 <a> <a href=x> </a> <br/>, two texts) and plurals {case 1}/{default} over 2 subjects with case bodies of <= 1 (thorough 2) parts from a 6-part pool, all enumerated by TLC with expected msgid/msgid_plural/var= and expected renderings for n in {0,1,2,3,5,11,21,22,101}; every message is placed at top level, every third also inside a foreach and every third behind a call; catalogues: none, and identity / reversing / partial for the locales ja (1 form), en (2), ru (3); rendered by soyhtml and by the generated JavaScript in node. A case is non-trivial if it has a placeholder or a plural; distinct by family id"
+	ctx.Rule = "cases: messages = bodies of <= 3 (thorough 4) parts from PoolC11 of SoyPO.tla ($a.y $b.y $y $y_1 $y|truncate:1,false $n+1 ($n+1)*2 $n+1*2 <a> <a href=x> </a> <br/>, two texts) and plurals {case 1}/{default} over 2 subjects with case bodies of <= 1 (thorough 2) parts from a 6-part pool, all enumerated by TLC with expected msgid/msgid_plural/var= and expected renderings for n in {0,1,2,3,5,11,21,22,101}; every message is placed at top level, every third also inside a foreach and every third behind a call, and half of them also together with one or two OTHER messages in one template body (a quarter of those inside a foreach); catalogues: none, identity / reversing / partial for the locales ja (1 form), en (2), ru (3), and identity catalogues whose Plural-Forms header differs from the locale's built-in rule (fr with the en rule, ja with the ru rule, en with the cs rule; plural messages, Go); rendered by soyhtml and by the generated JavaScript in node. A case is non-trivial if it has a placeholder or a plural; distinct by family id"
 	ctx.Assumptions = append(ctx.Assumptions,
 		"oracle = SoyPO.tla on top of SoyMsg.tla and SoyExpr.tla; messages PO cannot carry (plural cases other than {1, default}, empty msgid) are only checked to be refused / are not judged",
 		"print values contain no HTML-special characters (autoescaping is C03's subject); the plural subject is a non-negative integer",
@@ -99,7 +100,7 @@ func Run(ctx *core.Ctx) {
 	wg.Add(3)
 	go func() { defer wg.Done(); runM1(ctx) }()
 	go func() { defer wg.Done(); runDeviations(ctx) }()
-	go func() { defer wg.Done(); cases, xerr = exportCases(ctx, maxParts, maxInner, locales, ctx.Pick(6, 8)) }()
+	go func() { defer wg.Done(); cases, xerr = exportCases(ctx, maxParts, maxInner, append(append([]string{}, locales...), "cs"), ctx.Pick(8, 8)) }()
 	wg.Wait()
 	if xerr != nil {
 		ctx.ToolError("export: %v", xerr)
@@ -116,7 +117,7 @@ func poCfg(maxParts, maxInner int, dev string, invs string) string {
 		maxParts, maxInner, dev, invs)
 }
 
-const poInvariants = "RoundTripIdentity RoundTripForms RoundTripReverse ExpectedIsSource AbsentFallsBack ExtractShape"
+const poInvariants = "RoundTripIdentity RoundTripForms RoundTripReverse HeaderWins ExpectedIsSource AbsentFallsBack ExtractShape"
 
 func runM1(ctx *core.Ctx) {
 	mp, mi := ctx.Pick(3, 3), ctx.Pick(1, 2)
@@ -139,10 +140,12 @@ func runDeviations(ctx *core.Ctx) {
 		{"plural_index_shift", "RoundTripIdentity"},
 		{"extract_no_var", "RoundTripIdentity"},
 		{"same_by_flat_text", "RoundTripIdentity"},
+		{"same_ignores_directives", "RoundTripIdentity"},
+		{"builtin_rule_wins", "HeaderWins"},
 	}
 	self := map[string]interface{}{}
 	for _, d := range devs {
-		res, err := ctx.RunTLC(core.TLCOpts{Module: "SoyPOCheck", Cfg: poCfg(2, 1, `"`+d.name+`"`, "RoundTripIdentity RoundTripReverse"),
+		res, err := ctx.RunTLC(core.TLCOpts{Module: "SoyPOCheck", Cfg: poCfg(2, 1, `"`+d.name+`"`, "RoundTripIdentity RoundTripReverse HeaderWins"),
 			Workers: 1, Timeout: 10 * time.Minute, Label: "M1-deviation-" + d.name})
 		if err != nil {
 			ctx.ToolError("deviation %s: %v", d.name, err)
